@@ -148,6 +148,7 @@ type spec struct {
 	rawWire   []byte // when non-nil the whole response is these bytes
 	rawLbl    string
 	muts      []string
+	keepLoc   bool // a 3xx answer that keeps its Location: net/http follows it with the request the client built
 }
 
 func (s *spec) clone() *spec {
@@ -176,9 +177,10 @@ func (s *spec) set(key string, vals ...string) {
 
 // finalize applies the exclusions of the fault space.
 func (s *spec) finalize() *spec {
-	if s.status/100 == 3 {
-		// A 3xx with a Location is followed by net/http itself, not by the code under
-		// test; the fault space contains redirects without Location only.
+	if s.status/100 == 3 && !s.keepLoc {
+		// A 3xx with a Location is followed by net/http itself, not by the code under test: apart from
+		// the redirect family (keepLoc), which is there for the request the client built - net/http
+		// re-sends it, body and all - the fault space contains redirects without Location only.
 		s.del("Location")
 	}
 	return s
@@ -1232,6 +1234,10 @@ func systematic(scs []*scenario) []*caseDef {
 						script = append(script, g)
 					}
 					script = append(script, fault.finalize())
+					if fault.keepLoc {
+						// the request net/http sends to the new location gets the answer the original was to get
+						script = append(script, good(roleAt(k), n))
+					}
 					if sc.list {
 						script = append(script, good(sc.roles[0], n), good(sc.roles[0], n))
 					} else {
@@ -1306,6 +1312,24 @@ func systematic(scs []*scenario) []*caseDef {
 							}
 							mk("error-nonjson", e)
 						}
+					}
+				}
+				// F: redirects that net/http follows, re-sending what the client built (307/308 keep method and
+				// body and need the request's GetBody for that; the others turn most methods into GET)
+				for _, st := range []int{301, 302, 303, 307, 308} {
+					if sc.list {
+						break // listings have their own bound arithmetic; the family is about requests with bodies
+					}
+					for li, loc := range []string{"/v2/foo/bar/moved/here", "https://registry.test/v2/elsewhere?x=1"} {
+						if (st+li+k)%2 == 1 && st < 307 {
+							continue
+						}
+						s := base()
+						s.status = st
+						s.setBody("empty", n)
+						s.keepLoc = true
+						s.set("Location", loc)
+						mk("redirect-followed", s)
 					}
 				}
 				// D: unparseable wire data
@@ -1550,6 +1574,11 @@ func (h *harness) exec(cd *caseDef, st *stats) {
 		if bound < 0 {
 			bound = listBound(cd.script, n)
 		}
+		for _, sp := range cd.script {
+			if sp.keepLoc {
+				bound++ // the request to the new location is net/http's own
+			}
+		}
 		st.add("op/"+s.Name+"/"+s.Outcome, 1)
 		st.add("round_trips", s.Used)
 		if s.Used > bound {
@@ -1631,7 +1660,7 @@ func main() {
 	run.Assume("the requested page size of a listing is the documented one: ListPageSize if positive, else DefaultListPageSize (Options doc: 'If it's <= zero, it defaults to DefaultListPageSize')")
 	run.Assume("a listing may continue only after a page that is status 200, arrives intact, and holds at least the requested number of items; the Link header never obliges it to continue, and a malformed Link is allowed either to stop it or to be ignored")
 	run.Assume("round-trip bounds: listing ≤ (leading full pages)+1; PushBlob ≤ 2; GetTag ≤ 2; each BlobWriter Write/Close/Commit/Cancel ≤ 1; ID/Size/ChunkSize 0; every other call ≤ 1 (readers and iterators driven to the end included)")
-	run.Assume("3xx answers carry no Location: following a redirect is done by net/http, not by the code under test")
+	run.Assume("3xx answers carry no Location (following a redirect is done by net/http, not by the code under test), except in the redirect-followed family, where net/http re-sends the request the client built - through its GetBody when there is a body - to a Location that then answers normally")
 	run.Assume("responses that http.ReadResponse rejects reach the client as a RoundTrip error, as with any real transport; constructed responses always have Request and a non-nil Body")
 	run.Assume(fmt.Sprintf("an operation that has not returned after %v + %v is hung: scripts are finite and the transport refuses every request after the script", watchdog, rewait))
 
